@@ -29,7 +29,9 @@ fn main() {
         },
     };
     let code = match args[1].as_str() {
+        "C02" => props::c02::run(tier, seed),
         "C03" => props::c03::run(tier, seed),
+        "C04" => props::c04::run(tier, seed),
         "C20" => props::c20::run(tier, seed),
         "replay" => {
             let path = args.get(2).unwrap_or_else(|| usage());
@@ -37,7 +39,9 @@ fn main() {
             let v: serde_json::Value = serde_json::from_str(&text).expect("parse replay file");
             let case: report::Case = serde_json::from_value(v["case"].clone()).expect("case");
             let f: fn(&report::Case) -> Result<(), String> = match case.prop.as_str() {
+                "C02" => props::c02::replay,
                 "C03" => props::c03::replay,
+                "C04" => props::c04::replay,
                 "C20" => props::c20::replay,
                 p => {
                     eprintln!("no replay for {p}");
